@@ -310,14 +310,28 @@ def gen_lang(rng):
     }
     if rng.random() < 0.4:
         texts["cb/d.S"] = f'#include "{inc}"\n#ifdef {mac}\n  nop\n#endif\n'
-    srcs = [s for s in texts if s != foreign]
+    features = ["foreign-header-two-languages"]
+    if foreign.endswith(".h") and rng.random() < 0.5:
+        # the same header INSIDE the code base: it is pre-parsed by its extension, so its language
+        # (hence what every includer sees) must not depend on who includes it first — no finding here
+        texts["cb/common.h"] = texts.pop(foreign)
+        foreign = "cb/common.h"
+        features = ["code-base-header-two-languages"]
+    if rng.random() < 0.5:
+        # the header includes a second file that is not pre-parsed either: it inherits the class the
+        # header was cached with
+        nested = os.path.join(os.path.dirname(foreign), "nested.def")
+        texts[nested] = "/*\n#define N1 1\n*/\nint nested_shared;\n"
+        texts[foreign] += '#include "nested.def"\n#ifdef N1\nint n_on;\n#else\nint n_off;\n#endif\n'
+        features.append("foreign-header-nested-include")
+    srcs = [s for s in texts if s.startswith("cb/") and os.path.splitext(s)[1] in (".F90", ".c", ".cpp", ".S")]
     platforms = {}
     for n in names:
         k = rng.randint(1, len(srcs))
         chosen = rng.sample(srcs, k)
         platforms[n] = [{"file": os.path.relpath(s, "cb"),
                          "arguments": ["gcc", "-I", "../ext", "-I", ".", "-c", os.path.relpath(s, "cb")]} for s in chosen]
-    return dict(texts=texts, platforms=platforms, cbiconfig=None, features=["foreign-header-two-languages"], stream="lang",
+    return dict(texts=texts, platforms=platforms, cbiconfig=None, features=features, stream="lang",
                 foreign=foreign)
 
 
